@@ -215,7 +215,12 @@ func contains(cur, signed map[string]any) (bool, string) {
 	if fmt.Sprint(cur["uuid"]) != fmt.Sprint(signed["uuid"]) {
 		return false, "uuid"
 	}
-	if signed["dig"] != nil {
+	// what was signed vouches for a document only through its digest: a signed
+	// payload that names none vouches for nothing
+	if signed["dig"] == nil {
+		return false, "dig"
+	}
+	{
 		a, _ := json.Marshal(cur["dig"])
 		b, _ := json.Marshal(signed["dig"])
 		if !bytes.Equal(a, b) {
@@ -308,6 +313,21 @@ func judge(c Case, o *vh.Obs) {
 			} else {
 				sigs = append(sigs, signedHeader{key: a.Key, head: snapshot})
 			}
+		case "sign-bare-uuid":
+			// the key holder signs something else that merely names this envelope's
+			// identifier (no digest); the result is put among the signatures
+			if a.Key < 0 || a.Key >= len(keys) {
+				o.Discard()
+				return
+			}
+			bare := map[string]any{"uuid": env.Head.UUID.String()}
+			sg, err := dsig.NewSignature(keys[a.Key], bare)
+			if err != nil {
+				o.Discard()
+				return
+			}
+			env.Signatures = append(env.Signatures, sg)
+			sigs = append(sigs, signedHeader{key: a.Key, head: bare})
 		case "unsign":
 			env.Unsign()
 			sigs = nil
@@ -684,14 +704,14 @@ var metaKeys = []string{"m1", "m2"}
 func genAction(t *rapid.T, label string, phase string) Action {
 	pre := []string{"add-link", "add-tag", "set-meta", "set-notes", "add-tag", "set-meta"}
 	post := []string{"add-stamp", "add-link", "add-tag", "set-meta", "set-notes", "alter-uuid", "alter-digest", "remove-tag", "remove-stamp", "remove-link", "retitle-link", "retitle-link", "remove-meta", "set-meta", "extend-notes", "extend-notes",
-		"edit-doc", "edit-doc-recalc", "edit-doc-recalc", "reparse", "sign", "unsign", "add-stamp", "add-link", "set-meta", "alter-schema", "alter-schema"}
+		"edit-doc", "edit-doc-recalc", "edit-doc-recalc", "reparse", "sign", "unsign", "add-stamp", "add-link", "set-meta", "alter-schema", "alter-schema", "sign-bare-uuid"}
 	kinds := pre
 	if phase == "post" {
 		kinds = post
 	}
 	a := Action{Kind: rapid.SampledFrom(kinds).Draw(t, label)}
 	switch a.Kind {
-	case "sign":
+	case "sign", "sign-bare-uuid":
 		a.Key = rapid.IntRange(0, len(keys)-1).Draw(t, label+"_key")
 	case "add-stamp":
 		a.Arg = rapid.SampledFrom(providers).Draw(t, label+"_prv")
@@ -777,6 +797,8 @@ func enumTamper(yield func(Case) bool) {
 				{Doc: d.Path, Actions: []Action{{Kind: "sign", Key: 0}, {Kind: "edit-doc", Arg: what, Val: "1"}}, Present: 0, Exec: exec},
 				{Doc: d.Path, Actions: []Action{{Kind: "sign", Key: 0}, {Kind: "edit-doc", Arg: what, Val: "1"}, {Kind: "alter-schema", Val: "1"}}, Present: 0, Exec: exec},
 				{Doc: d.Path, Actions: []Action{{Kind: "sign", Key: 0}, {Kind: "alter-schema", Val: "1"}}, Present: 0, Exec: exec},
+				{Doc: d.Path, Actions: []Action{{Kind: "sign-bare-uuid", Key: 0}}, Present: 0, Exec: exec},
+				{Doc: d.Path, Actions: []Action{{Kind: "sign", Key: 0}, {Kind: "unsign"}, {Kind: "edit-doc-recalc", Arg: what, Val: "1"}, {Kind: "sign-bare-uuid", Key: 0}}, Present: 0, Exec: exec},
 				{Doc: d.Path, Actions: []Action{{Kind: "sign", Key: 0}, {Kind: "edit-doc-recalc", Arg: what, Val: "1"}, {Kind: "reparse"}}, Present: 0, Exec: exec},
 				{Doc: d.Path, Actions: []Action{{Kind: "sign", Key: 0}, {Kind: "add-stamp", Arg: "prov-a", Val: "v1"}, {Kind: "add-link", Arg: "pdf", Val: "a"}, {Kind: "add-tag", Arg: "t1"}, {Kind: "set-meta", Arg: "m1", Val: "x"}}, Present: 0, Exec: exec},
 				{Doc: d.Path, Actions: []Action{{Kind: "sign", Key: 0}, {Kind: "add-stamp", Arg: "prov-a", Val: "v1"}, {Kind: "sign", Key: 0}, {Kind: "add-stamp", Arg: "prov-a", Val: "v2"}}, Present: 0, Exec: exec},
@@ -793,7 +815,7 @@ func enumTamper(yield func(Case) bool) {
 func init() {
 	vh.OnExit(goblexec.Stop)
 	vh.Describe(
-		"Histories over every signable example invoice: 0-3 header decorations (links, tags, meta, notes), a signature by one of three keys, then 0-5 post-signing steps drawn from: add stamp / link (with or without title and MIME type) / tag (also the blank tag) / meta (also the empty value) / notes, change the title, description or MIME type of a link, remove a meta entry, extend the notes before or after their text, alter uuid / digest / the envelope's own schema identifier (which decides nothing), remove a tag / stamp / link, edit the document with and without recalculation, serialise+parse, sign again (any key), unsign; finally verification with the signer's key (75%) or another (a fifth of the time written as a JWK without the optional key id), through Envelope.Verify and VerifySignature with the key and without any (then the contents alone decide), cli.Verify (for two fifths of the cases the serialised envelope is rewritten with every string and member name as \\u escapes - surrogate pairs for the characters outside the basic plane put into the notes beforehand - with blanks and line breaks between all tokens, or compact with nothing escaped that need not be - the notes then also hold U+0085, U+2028 and U+2029, which YAML but not JSON reads as line breaks -, and the library also verifies what it reads from that text), the bulk verify action (in process) and - for a tenth of the cases and the enumerated tamper scenarios - the `gobl verify -k` executable, POST /verify and POST /bulk of a running `gobl serve`. Model: the header JSON recorded at each signing; expected = signed AND every signature made with the presented key AND the current header still contains each signed header (uuid, dig, stamps, links, tags, meta, notes); command-line paths additionally need the envelope to validate, and never accept a document edited without recalculation (the model tracks that itself, it does not ask Validate). Every path must return exactly the expected verdict; after an accepted verification a different key pair carrying the signer's key id must be refused by the same in-memory envelope. Non-trivial: the history ends signed.",
+		"Histories over every signable example invoice: 0-3 header decorations (links, tags, meta, notes), a signature by one of three keys, then 0-5 post-signing steps drawn from: add stamp / link (with or without title and MIME type) / tag (also the blank tag) / meta (also the empty value) / notes, change the title, description or MIME type of a link, remove a meta entry, extend the notes before or after their text, alter uuid / digest / the envelope's own schema identifier (which decides nothing), remove a tag / stamp / link, edit the document with and without recalculation, serialise+parse, sign again (any key), a signature by one of the keys over a payload that only names the envelope's identifier (no digest: it vouches for nothing), unsign; finally verification with the signer's key (75%) or another (a fifth of the time written as a JWK without the optional key id), through Envelope.Verify and VerifySignature with the key and without any (then the contents alone decide), cli.Verify (for two fifths of the cases the serialised envelope is rewritten with every string and member name as \\u escapes - surrogate pairs for the characters outside the basic plane put into the notes beforehand - with blanks and line breaks between all tokens, or compact with nothing escaped that need not be - the notes then also hold U+0085, U+2028 and U+2029, which YAML but not JSON reads as line breaks -, and the library also verifies what it reads from that text), the bulk verify action (in process) and - for a tenth of the cases and the enumerated tamper scenarios - the `gobl verify -k` executable, POST /verify and POST /bulk of a running `gobl serve`. Model: the header JSON recorded at each signing; expected = signed AND every signature made with the presented key AND the current header still contains each signed header (uuid, dig, stamps, links, tags, meta, notes); command-line paths additionally need the envelope to validate, and never accept a document edited without recalculation (the model tracks that itself, it does not ask Validate). Every path must return exactly the expected verdict; after an accepted verification a different key pair carrying the signer's key id must be refused by the same in-memory envelope. Non-trivial: the history ends signed.",
 		"signatures are random (ECDSA); only verdicts are compared",
 		"whether the envelope validates is taken from Envelope.Validate (its rules are property C10)",
 	)
